@@ -1,6 +1,6 @@
 """C07 - load balancing: one branch per frame, ordered duplicate-free rejoin.
 
-Engine simnet.  Monitors: (1) transport log of the balanced publisher: every message id is sent on exactly one PUB
+Engines simnet and (sampled) realnet.  Monitors: (1) transport log of the balanced publisher: every message id is sent on exactly one PUB
 socket; (2) client logs of the first-hop workers: no original frame is seen by two workers; (3) the balanced-sources
 consumer: every set comes from one source and one id (set mapper of C01 in balanced mode), origin sequence strictly
 increasing, no duplicates.
@@ -11,7 +11,7 @@ from ..simnet.pipe import Pipe
 
 PROPERTY = 'C07'
 LEVEL = 'exploration'
-TECHNIQUE = 'transport-log predicate (one PUB socket per id) + duplicate/order checkers over worker and joiner histories on seeded simulated-network executions'
+TECHNIQUE = 'transport-log predicate (one PUB socket per id) + duplicate/order checkers over worker and joiner histories on seeded simulated-network executions, and the same checkers over logs of real-pyzmq multi-process runs'
 RULE = ('2-4 branches, worker speed profiles {equal, one slow, all different, varying per frame}, splitter faster/slower than '
         'workers, optional second worker per branch (balance hop counter), optional ?? watchers on branches, link delays up to '
         '95 ms and slow links (safety only); non-trivial = frames reached the joiner from >=2 branches (and >=1 late frame '
@@ -129,7 +129,35 @@ def run_shard(ctx):
             res.sample({'branches': scn['branches'], 'profile': scn['profile'],
                         'workers_saw': {wk: [v['seq'] for e in w.clog if e['ev'] == 'process' and e['node'] == wk and e['ins'] for v in list(e['ins'].values())[:1]][:12] for wk in ('w0', 'w1')},
                         'joiner_saw': [list(e['ins'].values())[0].get('seq') for e in w.clog if e['ev'] == 'process' and e['node'] == 'sink' and e['ins']][:20]})
+    realnet_pass(ctx, res)
     return res
+
+
+def realnet_pass(ctx, res):
+    """Engine B: the same generator on real pyzmq (one process per filter); the same time-independent predicates."""
+    from ..realnet import orch
+    for k in range(1 if ctx.quick else 12):
+        rng = ctx.rng('realnet', k)
+        scn = gen(rng, rng.randrange(1 << 30))
+        try:
+            w = orch.run_real(scn, max_wall_s=10)
+        except Exception as e:
+            res.inconclusive.append(f'realnet scenario crashed the harness: {type(e).__name__}: {e}')
+            continue
+        r2 = common.Result()
+        bad = judge(w, scn, r2)
+        res.evaluations += 1
+        res.count('realnet_scenarios')
+        for key in ('balanced_ids_checked', 'worker_frames_checked', 'joiner_sets_checked'):
+            res.count('realnet_' + key, r2.counters.get(key, 0))
+        if any(k_.startswith('branches_reaching_joiner=') and k_[-1] not in '01' for k_ in r2.counters):
+            res.count('realnet_joiner_fed_by_several_branches')
+            res.nontrivial(f'realnet|{scn["branches"]}|{scn["profile"]}|{scn["seed"]}')
+        seen = set()
+        for mech, msg in bad:
+            if mech not in seen and not mech.startswith('filter-raised'):
+                seen.add(mech)
+                res.violation('realnet:' + mech, f'[real pyzmq, real processes] {msg}; branches={scn["branches"]} profile={scn["profile"]} seed={scn["seed"]}', {'realnet': True, **scn})
 
 
 def conclusive(agg, tier):
@@ -145,6 +173,12 @@ def conclusive(agg, tier):
 def replay(spec):
     common.quiet_logging()
     res = common.Result()
+    if spec.get('realnet'):
+        from ..realnet import orch
+        w = orch.run_real(spec, max_wall_s=10)
+        bad = judge(w, spec, res)
+        print('real-socket run (not deterministic):', bad[:5] or 'no violation this time')
+        return 1 if bad else 0
     w, bad = run_one(spec, res)
     for wk in sorted({e['node'] for e in w.clog if e['node'].startswith('w')}):
         print(wk, [list(e['ins'].values())[0].get('seq') for e in w.clog if e['ev'] == 'process' and e['node'] == wk and e['ins']])
